@@ -7,6 +7,7 @@ import (
 
 	"verifmc/checks/mpt"
 	"verifmc/checks/sc"
+	"verifmc/checks/wm"
 	"verifmc/rt"
 )
 
@@ -18,6 +19,8 @@ var checks = map[string]func(rt.Tier) int{
 	"C05": mpt.C05,
 	"C06": sc.C06,
 	"C07": sc.C07,
+	"C09": wm.C09,
+	"C11": wm.C11,
 	"C14": mpt.C14,
 }
 
